@@ -13,7 +13,7 @@ res=$dst/eval.txt; : > $res
 ( cd $wt && git apply $OLDPWD/$dst/patch.diff && echo "patch_applies=yes ($(git diff --stat | tail -1))" || echo "patch_applies=NO" ) >> $res
 ( cd $wt && /venv/bin/python -m pytest -q -p no:cacheprovider --timeout=900 --continue-on-collection-errors 2>&1 | tail -1 | sed 's/^/tests_patched: /' ) >> $res
 for p in $props; do
-  out=$(VERIF_REPO=$wt timeout 1800 ./check $p 2>&1 | grep -E "^(VIOLATION|OK|INFRA|KNOWN)" | head -3 | tr '\n' '|')
+  out=$(VERIF_REPO=$wt timeout 1800 ./check $p 2>&1 | grep -E "^(VIOLATION|OK|INFRA)" | head -3 | tr '\n' '|')
   echo "check_patched $p: $out" >> $res
 done
 git -C /repo worktree remove --force $wt
